@@ -26,7 +26,117 @@ def _fold_fn(f, fn, args):
     return T.Folder(f, env=env, effects=True).run(b["body"])
 
 
+def b256enc_exec(ctx):
+    """write_length folded as a whole with a model context (codeword vector, `more characters follow`, free codewords in the
+    symbol) over a grid: run starts 0 / 5 / 300, every run length 1..260 plus 499..1555 samples, the three relevant
+    (more, space) situations.  Afterwards the run must be the standard's Base256 field: length 0 (to end of symbol) iff the data
+    ends here and the symbol is exactly full, else one codeword for <= 249 bytes or two (249 + n div 250, n mod 250), followed by
+    the bytes, every codeword 255-state randomised for its 1-based position.  (ok | None, detail)"""
+    return ctx.memo("b256enc_exec", lambda: list(_b256enc_exec(ctx)))
+
+
+def _b256enc_exec(ctx):
+    f = ctx.facts()
+    wl = "encodation::base256::write_length"
+    b = f.thir.get(wl)
+    if b is None or len(b["params"]) != 2 or any(p_.get("pat", {}).get("k") != "Bind" for p_ in b["params"]):
+        return None, "write_length(ctx, start) not found"
+    pn = [p_["pat"]["name"] for p_ in b["params"]]
+    n_cases = 0
+    bad = None
+
+    def run(start, data, more, space):
+        cw = [65] * start + [0] + list(data)
+
+        def on_call(folder, c):
+            cc = T.canon(T.callee_of(c))
+            last = cc.split("::")[-1]
+            if "EncodingContext" not in cc:
+                return NotImplemented
+            if last == "symbol_size_left":
+                return {"__adt__": "core::option::Option", "__variant__": "Some", "#0": space, "0": space}
+            if last == "codewords":
+                return cw
+            if last == "has_more_characters":
+                return more
+            if last == "replace" and len(c["args"]) == 3:
+                i, v = folder.fold(c["args"][1]), folder.fold(c["args"][2])
+                if not (isinstance(i, int) and 0 <= i < len(cw)):
+                    raise T.Trap("replace at %r outside the %d codewords" % (i, len(cw)))
+                cw[i] = v
+                return ()
+            if last == "insert" and len(c["args"]) == 3:
+                i, v = folder.fold(c["args"][1]), folder.fold(c["args"][2])
+                if not (isinstance(i, int) and 0 <= i <= len(cw)):
+                    raise T.Trap("insert at %r outside the %d codewords" % (i, len(cw)))
+                cw.insert(i, v)
+                return ()
+            return NotImplemented
+        fo = T.Folder(f, env={pn[0]: T.Token("ctx"), pn[1]: start}, on_call=on_call, effects=True, local_calls=3)
+        fo.max_iter = 4000
+        try:
+            res = fo.run(b["body"])
+        except T.Trap as ex:
+            return ("trap", str(ex))
+        if isinstance(res, dict) and res.get("__variant__") == "Err":
+            return ("err",)
+        return ("ok", cw[:start], cw[start:])
+    try:
+        lens = list(range(1, 261)) + [499, 500, 1000, 1249, 1250, 1555]
+        for n in lens:
+            data = [(13 * i + 7) % 256 for i in range(n)]
+            for start in ((0, 5, 300) if n <= 6 or n in (249, 250, 251, 1555) else (5,)):
+                for more, space in ((True, 0), (False, 0), (False, 3)):
+                    if n > 260 and (more, space) == (False, 3):
+                        continue
+                    got = run(start, data, more, space)
+                    n_cases += 1
+                    hdr = [0] if (not more and space == 0) else ([n] if n <= 249 else [n // 250 + 249, n % 250])
+                    want = ("ok", [65] * start, [iso_rand255(v, start + i + 1) for i, v in enumerate(hdr + data)])
+                    if got != want and bad is None:
+                        if got[0] != "ok":
+                            bad = "run of %d bytes at position %d (more input: %s, free codewords: %d): %r" % (n, start + 1, more, space, got)
+                        elif got[1] != want[1]:
+                            bad = "run of %d bytes at position %d: codewords before the run were changed" % (n, start + 1)
+                        else:
+                            k = next((i for i in range(min(len(got[2]), len(want[2]))) if got[2][i] != want[2][i]), min(len(got[2]), len(want[2])))
+                            bad = "run of %d bytes at position %d (more input: %s, free codewords: %d): the field has %d codewords (5.2.9: %d); codeword %d of the field is %r, 5.2.9 says %r" % (
+                                n, start + 1, more, space, len(got[2]), len(want[2]), k, got[2][k] if k < len(got[2]) else None, want[2][k] if k < len(want[2]) else None)
+        got = run(5, [1] * 1556, True, 0)
+        n_cases += 1
+        if got[0] != "trap" and bad is None:
+            bad = "a run of 1556 bytes does not panic (no length field exists for it): %r" % (got[:1],)
+    except T.Undecidable as ex:
+        return None, "write_length does not fold (%s)" % ex
+    return bad is None, bad or "%d (run length, position, end situation) cases: the run becomes the standard's randomised Base256 field" % n_cases
+
+
 def tab_b256(ctx):
+    """TAB-B256: the function-level tables (randomisation, length header) are cheap and name the deviating row; encoder-side
+    obligations they cannot establish because the helpers were reshaped are decided by folding write_length as a whole."""
+    from .core import AnchorMissing
+    r = "TAB-B256"
+    try:
+        obs = _tab_b256_tables(ctx)
+    except AnchorMissing as ex:
+        okx, detx = b256enc_exec(ctx)
+        oky, dety = b256dec_exec(ctx)
+        if okx and oky:
+            obs = [Ob(r, k, True, "%s - helper shapes not recognised (%s); decided by folding write_length / decode_base256 as a whole: %s; %s" % (w, str(ex)[:80], detx, dety))
+                   for k, w in (("rand255-enc", "255-state randomisation, encoder"), ("rand255-dec", "255-state randomisation, decoder"), ("rand253-dec", "253-state pads"),
+                                ("length-enc", "length field, encoder"), ("length-zero-form", "length 0 form"), ("length-dec", "length field, decoder"))]
+            return obs
+        raise
+    enc_keys = ("rand255-enc", "length-enc", "length-zero-form")
+    if any((not o.ok) and o.key.split(":", 1)[1] in enc_keys for o in obs):
+        okx, detx = b256enc_exec(ctx)
+        if okx:
+            obs = [o if o.ok or o.key.split(":", 1)[1] not in enc_keys else
+                   Ob(r, o.key.split(":", 1)[1], True, o.what + " (helper shape not recognised; decided by folding write_length as a whole: " + str(detx) + ")", site=o.site) for o in obs]
+    return obs
+
+
+def _tab_b256_tables(ctx):
     r = "TAB-B256"
     f = ctx.facts()
     obs = []
